@@ -1,5 +1,102 @@
-(* STUB: Spec layer for rqsc -- to be written *)
-From Coq Require Import NArith List.
-From ACPI Require Import Lib.Bytes Lib.Sx Spec.Layout.
+(* Spec layer for the RQSC (RISC-V QoS controller table), written from SPEC_NOTES.md A.2:
+     36+4 ControllerCount; controllers from 40; the table Length counts those 4 bytes.
+     Controller (28 + sum of its resources): 0 Type (0 capacity, 1 bandwidth), 1 res, 2+2 Length, 4+12 RegisterInterface (GAS),
+       16+4 RCIDCount, 20+4 MCIDCount, 24+2 Flags, 26+2 ResourceCount, then the resources.
+     Resource (20 + extra): 0 Type (0 cache, 1 memory), 1 res, 2+2 Length, 4+2 Flags, 6 res, 7 IDType (0 cache, 1 memory
+       affinity, 2 ACPI device, 3 PCI device, other vendor), 8+8 ID1, 16+4 ID2, 20 specific data (memory affinity: 8-byte raw
+       bandwidth per block; vendor: the caller's bytes from offset 8 on).
+
+   Case vocabulary of component 22 (shared with harness/src/t_rqsc.rs and Impl/Rqsc.v):
+     ctor  (oem6 tbl8 orev)
+     op    (1 ctype gas rcid mcid flags (resource ...))
+              add_controller(QoSController::new(ctype, gas, rcid, mcid, flags) + add_resource(resource) for each, in order)
+           ctype   0 ControllerType::Capacity, 1 Bandwidth          gas: see Spec/GasS.v
+     resource  (rtype rflags resource-id) = ResourceStructure::new(rtype, rflags, resource-id);  rtype 0 ResourceType::Cache, 1 Memory
+     resource-id  (0 cache_id)             ResourceID::Cache(CacheResource::new(cache_id))
+                  (1 proximity_domain bw)  ResourceID::MemoryAffinityStructure(MemoryAffinityStructureResource::new(pd, bw))
+                  (2 hid uid)              ResourceID::ACPIDevice(ACPIDeviceResource::new(hid, uid))
+                  (3 bdf)                  ResourceID::PCIDevice(PCIDeviceResource::new(bdf))
+                  (4 idtype bytes)         ResourceID::VendorSpecific(idtype, bytes)
+   Every op emits one Num 0.
+   Outside the domain (reference = None): an enum value that does not exist, a scalar that does not fit its argument type,
+   a vendor-specific id whose type code is one of the four standard ones (0..3) or whose bytes do not cover ID1 and ID2
+   (fewer than 12 bytes: the resource would be shorter than the 20-byte fixed part), a resource or controller whose length
+   does not fit its 16-bit Length field, more than 65535 resources. *)
+From Coq Require Import NArith List Bool.
+From ACPI Require Import Lib.Bytes Lib.Sx Spec.Layout Spec.GasS.
 Import ListNotations.
-Definition rqsc_spec : tspec := null_spec.
+Open Scope N_scope.
+
+(* (IDType, ID1 ++ ID2 ++ specific data) *)
+Definition resid_ref (s : sx) : option (N * list N) :=
+  match s with
+  | SL [SA 0; SA cache_id] => if cache_id <? 2 ^ 32 then Some (0, le 8 cache_id ++ le 4 0) else None
+  | SL [SA 1; SA pd; SA bw] => if (pd <? 2 ^ 32) && (bw <? 2 ^ 64) then Some (1, le 8 pd ++ le 4 0 ++ le 8 bw) else None
+  | SL [SA 2; SA hid; SA uid] => if (hid <? 2 ^ 64) && (uid <? 2 ^ 32) then Some (2, le 8 hid ++ le 4 uid) else None
+  | SL [SA 3; SA bdf] => if bdf <? 2 ^ 32 then Some (3, le 8 bdf ++ le 4 0) else None
+  | SL [SA 4; SA ty; b] =>
+      match sx_bytes b with
+      | Some bs => if (4 <=? ty) && (ty <? 256) && forallb (fun x => x <? 256) bs && Nat.leb 12 (length bs)
+                   then Some (ty, bs) else None
+      | None => None
+      end
+  | _ => None
+  end.
+
+Definition resource_ref (s : sx) : option (list N) :=
+  match s with
+  | SL [SA rtype; SA rflags; id] =>
+      match resid_ref id with
+      | Some (idtype, rest) =>
+          let len := (8 + length rest)%nat in
+          if (rtype <? 2) && (rflags <? 65536) && (N.of_nat len <? 65536) then
+            (* the fixed fields by offset; ID1, ID2 and the specific data follow as one byte string *)
+            option_map (fun fixed => fixed ++ rest)
+                       (lay 8 [L 0 1 rtype; L 1 1 0; L 2 2 (N.of_nat len); L 4 2 rflags; L 6 1 0; L 7 1 idtype])
+          else None
+      | None => None
+      end
+  | _ => None
+  end.
+
+Definition controller_ref (o : sx) : option (list N) :=
+  match o with
+  | SL [SA 1; SA ctype; g; SA rcid; SA mcid; SA flags; SL res] =>
+      match gas_ref g, opt_seq (map resource_ref res) with
+      | Some gb, Some rs =>
+          let body := concat rs in
+          let len := (28 + length body)%nat in
+          if (ctype <? 2) && (rcid <? 2 ^ 32) && (mcid <? 2 ^ 32) && (flags <? 65536)
+             && (N.of_nat len <? 65536) && (N.of_nat (length rs) <? 65536) then
+            (* the 28 fixed bytes by offset; the resources follow *)
+            option_map (fun fixed => fixed ++ body)
+                       (lay 28 ([L 0 1 ctype; L 1 1 0; L 2 2 (N.of_nat len)] ++ LB 4 gb ++
+                                [L 16 4 rcid; L 20 4 mcid; L 24 2 flags; L 26 2 (N.of_nat (length rs))]))
+          else None
+      | _, _ => None
+      end
+  | _ => None
+  end.
+
+Definition rqsc_entries_ref (ops : list sx) : option (list (list N)) := opt_seq (map controller_ref ops).
+
+Definition rqsc_image (ctor : sx) (ops : list sx) : option (list N) :=
+  match ctor with
+  | SL [o; t; r] =>
+      match sx_hdr_args o t r, rqsc_entries_ref ops with
+      | Some h, Some es =>
+          if N.of_nat (length es) <? 2 ^ 32
+          then Some (ref_table [82; 81; 83; 67] 1 h (le 4 (N.of_nat (length es)) ++ concat es))
+          else None
+      | _, _ => None
+      end
+  | _ => None
+  end.
+
+Definition rqsc_spec : tspec := {|
+  ts_image := rqsc_image;
+  ts_walk := Some (40%nat, H_u8_x_u16);
+  ts_entries := fun _ ops => option_map (map (fun e => (nth 0 e 0, length e))) (rqsc_entries_ref ops);
+  ts_counts := fun n => [(36%nat, 4%nat, N.of_nat n)];
+  ts_returns := fun _ => false
+|}.
